@@ -87,9 +87,10 @@ class Hist:
         self.ops.append(gen.did_save(p))
         self.docs[p] = model.lines_from_disk(text.encode("utf-8"))
 
-    def close(self, p):
-        if self.dirty(p):
+    def close(self, p, discard=False):
+        if self.dirty(p) and not discard:
             self.save(p)
+        # discard: the editor closes the document without saving; the file on disk counts again
         self.ops.append(gen.did_close(p))
         self.docs.pop(p, None)
 
@@ -190,7 +191,7 @@ def gen_case(g):
             continue
         elif r < 0.86:
             if h.docs:
-                h.close(rng.choice(sorted(h.docs)))
+                h.close(rng.choice(sorted(h.docs)), discard=rng.random() < 0.5)
             continue
         elif r < 0.92:
             dirty = [p for p in sorted(h.docs) if h.dirty(p)]
@@ -234,7 +235,12 @@ def gen_case(g):
         h.opnames.append("long")
     for p in sorted(h.docs):
         if h.dirty(p):
-            h.save(p)
+            if rng.random() < 0.3:
+                h.close(p, discard=True)
+                if rng.random() < 0.5:
+                    h.open(p)
+            else:
+                h.save(p)
     h.ops.append({"k": "obs", "what": "saved"})
     h.ops.append({"k": "battery", "spec": BATTERY})
     h.ops += [gen.req(99990, "shutdown"), gen.note("exit")]
